@@ -54,6 +54,31 @@ Definition resp_eqb (a b : resp) : bool :=
   | _, _ => false
   end.
 
+(* ORDER BY published_at DESC LIMIT 1 (the predecessor query of deliverToSubscription) is
+   not a function when several candidates carry the same published_at -- which happens
+   exactly when they were created by one transaction with one time.Now(), e.g. a sweep
+   dead-lettering several same-key deliveries into one ordered subscription. The database
+   picks any of them; the model picks the first in id order. Two predecessor links are
+   therefore taken as equal when they name deliveries of the same subscription with the
+   same published_at in the observed post-state. *)
+Definition nb_tie (post : state) (a b : option id) : bool :=
+  match a, b with
+  | Some x, Some y =>
+      match find_id d_id x (dels post), find_id d_id y (dels post) with
+      | Some dx, Some dy => Z.eqb (d_published dx) (d_published dy) && N.eqb (d_sub dx) (d_sub dy)
+      | _, _ => false
+      end
+  | _, _ => false
+  end.
+Definition nb_same (post : state) (a b : option id) : bool := on_eqb a b || nb_tie post a b.
+
+Definition del_eqb_ties (post : state) (a b : del) : bool :=
+  N.eqb (d_id a) (d_id b) && N.eqb (d_msg a) (d_msg b) && N.eqb (d_sub a) (d_sub b) &&
+  Z.eqb (d_published a) (d_published b) && Z.eqb (d_attempt_at a) (d_attempt_at b) &&
+  Z.eqb (d_attempts a) (d_attempts b) && oz_eqb (d_completed a) (d_completed b) &&
+  Z.eqb (d_expires a) (d_expires b) && nb_same post (d_not_before a) (d_not_before b) &&
+  oz_eqb (d_last a) (d_last b).
+
 Section Diff.
   Context {R : Type} (key : R -> id) (eqb : R -> R -> bool).
   (* ids of rows that are not identical on both sides *)
@@ -67,11 +92,11 @@ Section Diff.
 End Diff.
 
 Definition col (same : bool) (name : string) : list string := if same then [] else [name].
-Definition del_cols (a b : del) : list string :=
+Definition del_cols (post : state) (a b : del) : list string :=
   col (N.eqb (d_msg a) (d_msg b)) "d.msg" ++ col (N.eqb (d_sub a) (d_sub b)) "d.sub" ++
   col (Z.eqb (d_published a) (d_published b)) "d.published" ++ col (Z.eqb (d_attempt_at a) (d_attempt_at b)) "d.attempt_at" ++
   col (Z.eqb (d_attempts a) (d_attempts b)) "d.attempts" ++ col (oz_eqb (d_completed a) (d_completed b)) "d.completed" ++
-  col (Z.eqb (d_expires a) (d_expires b)) "d.expires" ++ col (on_eqb (d_not_before a) (d_not_before b)) "d.not_before" ++
+  col (Z.eqb (d_expires a) (d_expires b)) "d.expires" ++ col (nb_same post (d_not_before a) (d_not_before b)) "d.not_before" ++
   col (oz_eqb (d_last a) (d_last b)) "d.last".
 Definition sub_cols (a b : sub) : list string :=
   col (String.eqb (s_name a) (s_name b)) "s.name" ++ col (N.eqb (s_topic a) (s_topic b)) "s.topic" ++
@@ -132,9 +157,9 @@ Definition check_step (pre : state) (o : obs) : list mismatch :=
   nonempty MTopics (diff_table t_id topic_eqb (topics m) (topics p)) ++
   nonempty MSubs (diff_table s_id sub_eqb (subs m) (subs p)) ++
   nonempty MMsgs (diff_table m_id msg_eqb (msgs m) (msgs p)) ++
-  nonempty MDels (diff_table d_id del_eqb (dels m) (dels p)) ++
+  nonempty MDels (diff_table d_id (del_eqb_ties p) (dels m) (dels p)) ++
   nonempty MSnaps (diff_table n_id snap_eqb (snaps m) (snaps p)) ++
-  nonempty MCols (diff_cols d_id del_cols "d.row-missing" "d.row-extra" (dels m) (dels p) ++
+  nonempty MCols (diff_cols d_id (del_cols p) "d.row-missing" "d.row-extra" (dels m) (dels p) ++
                   diff_cols s_id sub_cols "s.row-missing" "s.row-extra" (subs m) (subs p)).
 
 (* a history: observed steps from the empty database; the pre-state of a step is the
